@@ -28,16 +28,16 @@ CLAIMS = {
    text="Seeded edit histories (18 edit kinds incl. same-length edits, create/delete/rename, shadowing x.ts, nearer node_modules, file<->directory, package.json and tsconfig flips, syntax errors introduced and repaired, reordered imports; files appearing in and vanishing from directories that a glob-style import()/require() enumerates, starting missing, empty or populated) on a simulated disk with seeded mtime granularity, in-place vs replace writes and clock advances around the 3 s modification-key safety gap; after every step Rebuild() on one long-lived context must equal, byte for byte, a fresh build of the same disk snapshot run in its own bubble; in watch-mode runs every step that changes the fresh result must be reported dirty by the real watch predicates of the previous build; in watcher runs the real polling watcher goroutine runs on the simulated clock while edits land at arbitrary moments (also mid-build), and within 12 simulated seconds after the last edit the latest result delivered to an end callback must equal a fresh build of the final tree.",
    ref="4.2", tech="deterministic simulation: edit-history generator on a simulated disk and clock, rebuild-vs-fresh-build reference model, real watch predicates through a virtual in-package accessor"),
  "C16": dict(
-   text="The fault- and schedule-dependent part of C16: builds of generated multi-file projects during which the simulated disk fails, tears, truncates, bit-flips, NUL-fills or splices invalid UTF-8 into reads of any input kind (JS/TS/JSX/CSS/JSON/package.json/tsconfig.json/source-map comments), fails directory reads and stats, and during which a client cancels at a seeded scheduling point or exactly before a chosen poll of the cancel flag (including a sweep over every poll of one build); the build must return within a step budget, report no 'panic:'/'Internal error' diagnostic, leave no blocked goroutine behind (bubble deadlock detection), and after the disk is healed a rebuild on the same context and process must equal a clean build. Input generation as such (fuzzing all byte strings) is not claimed.",
+   text="The fault- and schedule-dependent part of C16: builds of generated multi-file projects during which the simulated disk fails, tears, truncates, bit-flips, NUL-fills or splices invalid UTF-8 into reads of any input kind (JS/TS/JSX/CSS/JSON/package.json/tsconfig.json/source-map comments), fails directory reads (when the directory is opened or when its entries are read), stats and readlinks, turns files into dangling or self-referring symbolic links, and during which a client cancels at a seeded scheduling point or exactly before a chosen poll of the cancel flag (including a sweep over every poll of one build); the build must return within a step budget, report no 'panic:'/'Internal error' diagnostic, leave no blocked goroutine behind (bubble deadlock detection), leave no slot of the process-wide open-file limiter taken when the run ends, and after the disk is healed a rebuild on the same context and process must equal a clean build. Input generation as such (fuzzing all byte strings) is not claimed.",
    ref="4.3", tech="deterministic simulation with storage-fault injection (read errors, corruption, vanishing files), cancellation points, single-fault sweeps, bubble deadlock/leak detection"),
  "C17": dict(
-   text="The simulated disk's mutation log of every build (api.Build, Rebuild histories on one context, cli.Run) is checked against the reported OutputFiles: every write is a reported output with the reported bytes, never an input that this build loaded (unless overwriting was allowed), never two contents for one path; write-disabled, cancelled and failed-before-writing builds write nothing; removals only hit files an earlier build of the same context wrote and the current one does not produce. Explored under write ENOSPC/EIO/EACCES, mkdir and remove faults, cancellation at seeded points and exactly before chosen polls of the cancel flag, outputs deleted or modified by the user between rebuilds, glob entry points that appear and disappear, and output locations that coincide with sources.",
+   text="The simulated disk's mutation log of every build (api.Build, Rebuild histories on one context, cli.Run) is checked against the reported OutputFiles: every write is a reported output with the reported bytes, every reported output lies inside the output directory (no generated name template contains a parent-directory segment), no write lands on an input that this build loaded - also not under another name through a symbolic link - unless overwriting was allowed, never two contents for one path; write-disabled, cancelled and failed-before-writing builds write nothing; removals only hit files an earlier build of the same context wrote and the current one does not produce. Explored under write ENOSPC/EIO/EACCES, mkdir and remove faults, cancellation at seeded points and exactly before chosen polls of the cancel flag, outputs deleted or modified by the user between rebuilds, glob entry points that appear and disappear, output locations that coincide with sources (output directory = source directory, an output directory reached through a symbolic link into the sources, a TypeScript entry point whose output lands on a hand-written .js input of another entry point, outbase deeper than an entry point).",
    ref="4.4", tech="deterministic simulation: simulated disk operation log as oracle, write/mkdir/remove fault injection, cancellation sweeps, rebuild histories"),
  "C18": dict(
    text="Over edit histories (incl. comment-only edits and reordering of import() expressions inside one array literal) and single-option changes (public path, name templates, source-map mode, legal-comment mode) with hashed name templates: across all builds of a run a hashed output path never carries two different byte contents; every import/require/url()/sourceMappingURL/legal-comment reference found in an output by an independent scanner names a file emitted by the same build; the unique-key prefix injected through the PRNG seam (random and adversarial values) occurs in no output, metafile or diagnostic. One genuine defect is recorded as a known finding (swapping two import() expressions with identical surrounding text keeps the hashed name; see known-findings.json).",
    ref="4.5", tech="deterministic simulation: history of edits/option changes with a path->content table, independent reference scanner, injected unique-key prefix"),
  "C19": dict(
-   text="The I/O-accounting clauses of C19 on every simulated build (fresh and incremental, all schedules): metafile outputs = OutputFiles with exact byte lengths (also on disk when writing), inputs are files the build actually read with the size it read in this build and include every module the generator's model says is reachable, every non-external import path is a listed input/output, entry points match, per-output input bytes never exceed the file size, no duplicate keys, the per-module marker invariant (marker present in output <=> bytesInOutput > 0), the segment identity in unminified bundles (the code between a module's path comment and the next one - for the last module of an ES module output: the export clause - has exactly bytesInOutput bytes; profiles in which one chunk or asset is referenced from outputs at different directory depths), the path style of every path, import kinds and external flags of inputs against the generator's model, and the import statements of the emitted code against the outputs' imports. Export lists are not claimed.",
+   text="The I/O-accounting clauses of C19 on every simulated build (fresh and incremental, all schedules): metafile outputs = OutputFiles with exact byte lengths (also on disk when writing), inputs are files the build actually read with the size it read in this build and include every module the generator's model says is reachable, every non-external import path is a listed input/output, entry points match, per-output input bytes never exceed the file size, no duplicate keys, the per-module marker invariant (marker present in output <=> bytesInOutput > 0), the segment identity in unminified bundles (the code between a module's path comment and the next one - for the last module of an ES module output: the export clause - has exactly bytesInOutput bytes; profiles in which one chunk or asset is referenced from outputs at different directory depths), the path style of every path, import kinds and external flags of inputs against the generator's model, the import statements of the emitted code against the outputs' imports (also the kind of every external package import against the form the code uses), and the metafile of every incremental rebuild against the metafile of a fresh build of the same tree; profiles with more than 256 files (compact metafile), paths with spaces, import attributes, external packages for an engine without import(). Export lists are not claimed.",
    ref="4.6", tech="deterministic simulation: metafile cross-checked against OutputFiles, the simulated disk's read/write log and the generator model over rebuild histories"),
  "C20": dict(
    text="Seeded interleavings of 2-4 client tasks issuing Rebuild/Cancel/Dispose/Watch/Serve/Edit/Sleep and HTTP requests against shared contexts with plugins that yield, sleep, fail, block until released or re-enter Resolve, executed under the race detector with the scheduler's own synchronisation hidden from it; history checks: termination (deadlock = no runnable task and no timer), every Rebuild result equals the canonical result of exactly one overlapping build and is internally consistent, freshness per file as register linearizability (porcupine), Cancel/Dispose return only after the running build's end callbacks, no callbacks after Dispose, callback ordering within a build; plus the real stdio service loop over simulated stdin/stdout with fragmentation, EOF at arbitrary offsets and EPIPE: every request answered exactly once with its own id, no interleaved packets, bursts of rebuild/cancel/dispose sent without waiting, a host that holds its callback answers, no cancel response while a callback of that context is unanswered; plus Serve: the real serve_other.go and net/http server on a simulated network (in-bubble pipes) with GET/HEAD of outputs and serve-directory files, event streams read for a seeded time and dropped, abandoned requests, occupied ports: a 200 carries exactly one current build's bytes (in progress or within the reuse window), 503/404 only when such a build failed/lacks the file, nothing served after Dispose, OnRequest exactly once per answered request, event-stream events = differences of consecutive successful builds in order and exactly once. HTTPS is not exercised.",
